@@ -117,7 +117,19 @@ def run_model(text: str, entries: Sequence[str] = ENTRIES) -> Dict[str, Any]:
     cache = mm.new_scratch("cache")
     for e in entries:
         out["runs"].append(run_entry(e, text, ld.symbol_table, cache_dir=cache))
+    _sweep_scratch()
     return out
+
+
+def _sweep_scratch() -> None:
+    """Remove what the runs of one model left in this process' scratch root (thousands of generated files otherwise
+    pile up until the interpreter exits, and deleting them all at once takes minutes on a busy disk)."""
+    import shutil
+
+    root = _mm().scratch_root()
+    for p in list(root.iterdir()):
+        if p.is_dir() and re.match(r"(gen|out|cache|smoke|load)\d+$", p.name):
+            shutil.rmtree(p, ignore_errors=True)
 
 
 def judge(ctx: Ctx, name: str, text: str, stream: str, res: Dict[str, Any], expect_accepted: Optional[bool] = None) -> None:
